@@ -18,6 +18,7 @@ THEOREMS = [
     "C13_state_variances_ge_floor",
     "C13_resp_normalisation_is_identity",
     "C13_counts_sum_to_samples",
+    "C13_supplied_unit_variances_clamped",
 ]
 CORR_OPS = ["kmeans_iter:degenerate", "kmeans_vw:degenerate", "gmm_mstep_ml:degenerate"]
 RULE = ("degenerate training sets: duplicated rows, a constant column, fewer distinct points than components, a far outlier, a "
